@@ -91,6 +91,12 @@ prop("C14", True, "model_checking",
      "Trusted: the 200-line reference parser; Rust std's number grammar; field values limited to the menus.",
      "DESIGN.md 3/C14", E1)
 
+prop("C15", True, "model_checking",
+     "exhaustive enumeration of small maps (object lines in any order x break lists x timing-line sets x modes x multipliers) with closed-form and metamorphic (time shift) oracles",
+     "Every map of up to 2 (3) object lines in any file order over an 8-kind x 4-time object alphabet, 8 break lists, timing-line sets with boundary placements, 4 modes and 3 slider multipliers is decoded; order/stability, forced combos after breaks, slider velocity and duration closed forms and sample defaults from the sample point 5 ms after end/node are recomputed independently; a quarter of the maps is re-decoded under six whole-millisecond time shifts.",
+     "Trusted: raw objects from the real line parser (C14) and control points from the real decoder (C12) as inputs of the reference post-processing; breaks chronological and non-overlapping; slider lookup times within 1e-6 ms of a sample point are skipped (float rounding).",
+     "DESIGN.md 3/C15", E1)
+
 NOT_BUILT_REASON = "check not built yet in this session (planned, see DESIGN.md section 3); not claimed until it exists"
 
 def main():
